@@ -55,6 +55,7 @@ def pseudo(src: bytes, dst: bytes, proto: int, length: int) -> bytes:
 # legitimate lower-layer variations, switched on per capture by VARIATION (a dict; set by the harness, default none):
 #   tcp_opts: TCP timestamp option (12 option bytes, data offset 8)     ip6_ext: an IPv6 Destination Options header before the transport header
 #   ip4_opts: an IPv4 NOP/NOP/NOP/EOL option word (IHL 6)               eth_pad: short frames padded to the 60-byte Ethernet minimum
+#   no_psh: data segments carry the ACK flag only (no PSH)
 #   eth_fcs: every frame carries a 4-byte trailer behind the IP datagram (captured FCS / mirror-port trailer)
 VARIATION = {}
 
@@ -110,6 +111,8 @@ def eth_frame(smac, dmac, ip_pkt):
 
 def tcp_frame(flow: Flow, d: str, seq: int, ack: int, payload: bytes, flags=PSH | ACK, **kw):
     s, r = flow.ends(d)
+    if VARIATION.get("no_psh") and flags == PSH | ACK:
+        flags = ACK                        # most mid-stream data segments carry ACK only
     seg = tcp_segment(s.ip, r.ip, s.port, r.port, seq, ack, flags, payload, **kw)
     return eth_frame(s.mac, r.mac, ip_packet(s.ip, r.ip, 6, seg))
 
